@@ -8,6 +8,8 @@ import (
 	ethtypes "github.com/ethereum/go-ethereum/core/types"
 	"github.com/ethereum/go-ethereum/eth/filters"
 	"github.com/ethereum/go-ethereum/rpc"
+
+	"github.com/EscanBE/evermint/v12/utils/verifhook"
 )
 
 // Subscription defines a wrapper for the private subscription
@@ -34,6 +36,7 @@ func (s Subscription) ID() rpc.ID {
 // subscription error channel if unsubscribe fails.
 func (s *Subscription) Unsubscribe(es *EventSystem) {
 	go func() {
+		verifhook.At("unsubscribe", "send", s.id)
 	uninstallLoop:
 		for {
 			// write uninstall request and consume logs/hashes. This prevents
